@@ -618,7 +618,7 @@ func (env *CEnv) call(c *ECall) CVal {
 	case "typeis":
 		v := env.eval(c.Args[0])
 		ty := env.run.eng.resolveType(c.TArgs[0], env.pkg, env.tsubst)
-		if types.IsInterface(ty) {
+		if isIface(ty) {
 			return CVal{T: env.run.eng.implementsTerm(env.run, v.T, ty), Type: tBool}
 		}
 		return CVal{T: reg.IsBoxed(ty, v.T), Type: tBool}
